@@ -191,3 +191,119 @@ Theorem C01_pipeline_partitions_original_utf8 :
                orig_slice s (fst (sbytes n)) (snd (sbytes n)) = Some (byte_slice (enc t0) (map_range (m2o s) (sbytes n)))).
 Proof. exact (pipeline_partitions_original_utf8 the_cfg C01_facts_ok). Qed.
 Print Assumptions C01_pipeline_partitions_original_utf8.
+
+(* ================================================================== THE TOKENIZER, END TO END (Proofs/EndToEnd.v)
+   `tokenize_model` (Model/Tokenizer.v) is the composition of the stage models in the order of
+   StatefulTokenizer::do_tokenize: start_build -> input-text plugins -> character classes / can_bow -> dictionary lookup +
+   OOV providers -> lattice (skip unreachable positions, fallback provider) -> Viterbi -> resolve_best_path -> path-rewrite
+   plugins -> split_path -> Morpheme accessors.  It is run against the real tokenizer on every check (check_end_to_end). *)
+From Coq Require Import String.
+From Coq Require Import List.
+From SudachiVerif Require Import Model.Tokenizer Proofs.EndToEnd Proofs.BuildOptimal.
+Local Close Scope string_scope.
+From SudachiVerif Require Proofs.NormalizeBuffer Proofs.LookupLattice Proofs.OovWf Proofs.OovLattice Model.Oov
+     Proofs.RewriteTermination Model.SplitSource Proofs.SplitDict Proofs.CodecProofs Model.Codec.
+
+(* facts re-read from the sources on this run *)
+Fact C01_e2e_facts :
+  Generated.NormalizeFacts.slow_search_earliest = false /\ Generated.NormalizeFacts.lowercase_guard_is_uppercase = false /\
+  Generated.NormalizeFacts.path_guard_is_uppercase = false /\
+  Oov.OF.continuity_forward = true /\ Oov.OF.regex_ignores_empty_match = true /\ Split.split_facts_ok = true /\
+  c_start_cmp the_cfg = ">"%string /\ c_resolve_cmp the_cfg = ">"%string /\ c_commit_cmp the_cfg = ">"%string /\
+  (Z.of_N (c_commit_limit the_cfg) < 18446744073709551616)%Z.
+Proof. vm_compute. repeat split; reflexivity. Qed.
+
+Fact C01_e2e_rewrite_facts : RewriteTermination.rewrite_facts_ok.
+Proof.
+  unfold RewriteTermination.rewrite_facts_ok, RewriteTermination.num_facts_ok.
+  repeat split; try (vm_compute; reflexivity); try (vm_compute; discriminate). vm_compute. repeat constructor.
+Qed.
+
+Fact C01_e2e_codec_facts :
+  Generated.FieldOrder.writer_fields = Codec.expected_writer /\ CodecProofs.reader_facts_ok /\ CodecProofs.len_thresholds_ok = true.
+Proof. split; [vm_compute; reflexivity|]. split; [split; vm_compute; reflexivity | vm_compute; reflexivity]. Qed.
+
+(* For EVERY
+     original text t0 (code points; its UTF-8 encoding enc t0 is what the user passes), within the input limit,
+     tokenizer tk: stack of input-text plugins, character-class function, lexicons, word parameters / infos, OOV providers,
+       connection-cost function, path-rewrite plugins, mode, split tables,
+   with t = the text the plugin stack specifies (C07: stack_spec),
+   under the hypotheses H1..H9 below, the model tokenizer answers Ok ms, and
+     - if t is empty there are no morphemes;
+     - otherwise the byte ranges (begin, end) of ms partition enc t0 (first begins at 0, each begins where the previous one
+       ended, the last ends at |enc t0|, every cut on a character boundary), the surfaces concatenate to enc t0, every
+       surface is the original slice of its range, begin_c / end_c are the numbers of code points of enc t0 before
+       begin / end (C08);
+     - and, before path rewriting and splitting, the path read back from the lattice is a chain of OFFERED candidates
+       covering the text whose cost is minimal among all such chains (C02), where position p offers exactly
+       `offered_at the_cfg tk t p`: the dictionary entries found by LexiconSet::lookup at the byte offset of character p
+       that end where a word may begin (Model/DictCands.v dict_entries, C04) followed by what the OOV providers prescribe
+       there, the fallback provider included (Model/Oov.v position_step, C13). *)
+Theorem C01_tokenizer_end_to_end :
+  forall (tk : tokenizer) (t0 : list N) (o_simple : Oov.oovdef) (key : N -> list N) (t : list N),
+    t = NormalizeBuffer.stack_spec (tk_plugins tk) t0 ->
+    (* H1  the input is within MAX_LENGTH (otherwise tokenization answers Err: C03) *)
+    (Z.of_nat (length (PipelineFull.enc t0)) <= Z.of_N (c_start_limit the_cfg))%Z ->
+    (* H2  every plugin is well formed: rewrite.def table with distinct non-empty keys and the laws of the Unicode oracle
+           (C07: plugin_wf; the laws are swept over all scalar values by C07's thorough tier) *)
+    Forall NormalizeBuffer.plugin_wf (tk_plugins tk) ->
+    (* H3  no plugin empties a non-empty text (the offset-map theorems of C08 exclude emptying batches);
+       H4  before each plugin the text plus what the plugin inserts, and after it the text, fit REALLY_MAX_LENGTH
+           (otherwise Err: C03 / C07_plugin_stack_total) *)
+    NormalizeBuffer.stack_nonempty (tk_plugins tk) t0 -> NormalizeBuffer.stack_fits the_cfg (tk_plugins tk) t0 ->
+    (* H5  the rewritten text consists of Unicode scalar values (true of every Rust String; for the model it is a
+           statement about what the Unicode oracle of H2 returns) *)
+    Forall scalar t ->
+    (* H6  every lexicon carries the C04 certificate (cert_lex: checked on the built dictionary by ./check C04) and its CSV
+           surfaces are whole UTF-8 strings *)
+    certified (tk_lexs tk) ->
+    (* H7  the regex provider's oracle reports matches inside the searched window (C13 run-time check; vacuous without a
+           regex provider); the Simple provider is the fallback (last) provider; no provider fails at a position of the
+           text (regex debug error / created-words overflow: C13, C03) *)
+    (forall q, In q (tk_provs tk) -> OovWf.provider_oracle_ok q (length t)) ->
+    Oov.fallback_of (tk_provs tk) = Some (Oov.PSimple o_simple) ->
+    (forall p, p < length t ->
+       exists st, Oov.normal_pass (Oov.mk_ctx (classes tk t)) (tk_provs tk) p (dict_onodes the_cfg tk t p) = Oov.ROk st) ->
+    (* H8  split declarations: every node handed to split_path whose word declares two or more units satisfies C09's
+           units_wf (C09_units_wf_of_rows derives it from the author-checkable rows_units_ok: see the corollary below) *)
+    (forall a, pre_split the_cfg tk t = Ok a ->
+       PipelineFull.mode_wf (tk_hw tk) key t (tk_ua tk) (tk_ub tk) (tk_mode tk) (pr_split_in a)) ->
+    exists ms, tokenize_model the_cfg tk t0 = Ok ms /\
+      (t = [] -> ms = []) /\
+      (t <> [] ->
+         partition_b (PipelineFull.enc t0) (map (fun m => (mo_begin m, mo_end m)) ms) = true /\
+         concat (map mo_surface ms) = PipelineFull.enc t0 /\
+         Forall (fun m => mo_surface m = byte_slice (PipelineFull.enc t0) (mo_begin m, mo_end m) /\
+                          mo_begin_c m = codepoints_before (PipelineFull.enc t0) (mo_begin m) /\
+                          mo_end_c m = codepoints_before (PipelineFull.enc t0) (mo_end m)) ms /\
+         exists a, pre_split the_cfg tk t = Ok a /\
+           let p := map fst (pr_path a) in
+           let off := Offered (offered_at the_cfg tk t) OovLattice.no_fallback in
+           chainP off 0 (length t) p /\ path_cost (tk_conn tk) p = snd (pr_eos a) /\
+           forall p', chainP off 0 (length t) p' -> (path_cost (tk_conn tk) p <= path_cost (tk_conn tk) p')%Z).
+Proof.
+  exact (fun tk t0 o_simple key t Ht H1 H2 H3 H4 H5 H6 =>
+    match C01_e2e_facts with
+    | conj Fs (conj Fg (conj Fp (conj Ffw (conj Ffx (conj Fsp (conj Gs (conj Gr (conj Gc Gl)))))))) =>
+      tokenizer_end_to_end Fs Fg Fp Ffw Ffx C01_e2e_rewrite_facts Fsp the_cfg C01_facts_ok Gs Gr Gc Gl
+        tk t0 o_simple key t Ht H1 H2 H3 H4 H5 (keys_of_certificates _ H6)
+    end).
+Qed.
+Print Assumptions C01_tokenizer_end_to_end.
+
+(* H8 from the rows a dictionary author writes: when the split tables of tk are those of the loaded dictionary stack cs
+   compiled from the sources ds (C05/C09 codec models), it suffices that every node handed to split_path that declares two or
+   more units satisfies the author-checkable rows_units_ok and covers the key of its word (it was produced by a lookup
+   of that word: C04) *)
+Theorem C01_split_hypothesis_from_rows :
+  forall ds cs nsp po t m path,
+    SplitDict.stack_compiled ds cs -> SplitDict.srcs_ok ds ->
+    rows_mode_wf ds cs nsp po t m path ->
+    PipelineFull.mode_wf (SplitSource.ld_hw cs nsp po) (SplitSource.src_key ds) t
+                         (SplitSource.ld_units cs nsp po true) (SplitSource.ld_units cs nsp po false) m path.
+Proof.
+  exact (fun ds cs nsp po t m path Hc Hs =>
+    mode_wf_of_rows (proj1 C01_e2e_codec_facts) (proj1 (proj2 C01_e2e_codec_facts)) (proj2 (proj2 C01_e2e_codec_facts))
+                    ds cs Hc Hs nsp po t m path).
+Qed.
+Print Assumptions C01_split_hypothesis_from_rows.
